@@ -54,7 +54,8 @@ type CharFactor struct {
 
 func (c CharFactor) factorNode() {}
 func (c CharFactor) TokenLiteral() string {
-	return fmt.Sprintf("%s", c.Value)
+	// 引用符を付けたまま渡す: 中身だけ (ab) を渡すと後段で同名のラベルと区別できなくなる
+	return fmt.Sprintf("'%s'", c.Value)
 }
 
 func FactorToString(f Factor) string {
